@@ -19,6 +19,7 @@ class QueueDul(object):
         self.queued = []          # generators not drained yet
         self.pdus = []            # list of (list of P-DATA-TF PDUs) per send, in send order
         self.other = []           # non-generator primitives (release / abort PDUs)
+        self.max_pdu_length = 65536   # the real provider keeps the LOCAL receive maximum, whatever was negotiated
 
     def send(self, x):
         if hasattr(x, 'pdu_type'):
